@@ -102,7 +102,11 @@ func statAll(store *transactionOnly, paths []string) ([]hackpadfs.FileInfo, []er
 	errs := make([]error, len(paths))
 	results, err := getFileRecords(store, paths)
 	if err != nil {
-		return nil, []error{err}
+		// could not look up any of them
+		for i := range errs {
+			errs[i] = err
+		}
+		return infos, errs
 	}
 	for i := range paths {
 		path := paths[i]
